@@ -27,6 +27,7 @@ const PARSEABLE: [&str; 16] = [
 ];
 
 fn setup(ctx: &mut Ctx) {
+    ctx.floor("header-that-looks-byte-swapped", 1000);
     ctx.floor("decoded-through-a-user-defined-spec", 1000);
     ctx.floor("record-sequences", 500);
     for n in PARSEABLE {
@@ -70,6 +71,16 @@ pub fn gen_value(rng: &mut Rng, w: usize, k: usize) -> u64 {
             v
         }
         6 => top | rng.next_u64(),
+        7 => {
+            // bytes repeating with period 1, 2 or 4
+            let p = [1u32, 2, 2, 4][rng.usize_below(4)];
+            let unit = rng.next_u64() & (if p == 4 { 0xffff_ffff } else if p == 2 { 0xffff } else { 0xff });
+            let mut v = 0u64;
+            for i in 0..(8 / p) {
+                v |= unit << (8 * p * i);
+            }
+            v
+        }
         _ => rng.next_u64(),
     }) & m
 }
@@ -263,6 +274,16 @@ fn file_header_case<E: EndianParse + std::fmt::Debug>(ctx: &mut Ctx, enc: Enc, s
         if rec.get("e_phnum") == 0xffff {
             rec.set("e_phnum", 7);
         }
+    }
+    if ctx.rng.chance(1, 6) {
+        // a header that looks like a well-formed one of the *other* byte order (EI_DATA mislabelled by a patching tool):
+        // version and the three size fields read as the byte-swapped canonical values. The label still decides.
+        let (eh, ph, sh): (u16, u16, u16) = if enc.c64 { (64, 56, 64) } else { (52, 32, 40) };
+        rec.set("e_version", 1u32.swap_bytes() as u64);
+        rec.set("e_ehsize", eh.swap_bytes() as u64);
+        rec.set("e_phentsize", ph.swap_bytes() as u64);
+        rec.set("e_shentsize", sh.swap_bytes() as u64);
+        ctx.count("header-that-looks-byte-swapped");
     }
     let mut ident = vec![0x7f, b'E', b'L', b'F', if enc.c64 { 2 } else { 1 }, if enc.big { 2 } else { 1 }, 1, osabi, abiver];
     ident.extend_from_slice(&ctx.rng.bytes(7));
